@@ -122,6 +122,13 @@ class Slice:
         self._seen.add(key)
         for d in def_exprs(func, r['id']):
             self.expr(func, d, depth + 1)
+        # filled element by element:  v[i] = e  /  *v = e
+        for n in func.body.walk():
+            if n.k == 'BinaryOperator' and n.get('op') == '=':
+                l = strip(n.ch[0])
+                if l is not None and ((l.k == 'ArraySubscriptExpr' and (decl_of(l.ch[0]) or {}).get('id') == r['id']) or
+                                      (l.k == 'UnaryOperator' and l.get('op') == '*' and (decl_of(l.ch[0]) or {}).get('id') == r['id'])):
+                    self.expr(func, n.ch[1], depth + 1)
         # written through its address by a call:  f(&v)  /  f(v) for arrays
         for c in func.calls():
             for i, a in enumerate(c.ch[1:]):
@@ -326,7 +333,17 @@ def args_match(f, c, argspec, ds):
             if s.get('v') != want:
                 return False
         elif isinstance(want, str):
-            if not (s.k == 'StringLiteral' and s.get('s') == want):
+            if s.k == 'ArraySubscriptExpr':
+                # names[i] with names a local/file-scope array initialised with string literals: one of its rows
+                b = decl_of(s.ch[0])
+                rows = []
+                if b is not None:
+                    for d in f.local_decls():
+                        if d['id'] == b['id'] and d.get('init', -1) != -1:
+                            rows = [strip(x).get('s') for x in strip(f.nodes[d['init']]).walk() if strip(x) is not None and strip(x).k == 'StringLiteral']
+                if want not in rows:
+                    return False
+            elif not (s.k == 'StringLiteral' and s.get('s') == want):
                 return False
         elif isinstance(want, tuple) and want[0] == 'param':
             d = decl_of(s)
